@@ -292,6 +292,13 @@ def gen_stft(run):
                         continue
                       i += 1
                       yield (size, hop, n, func, trans, ba, wk, ola, ola_wnd, ola_norm, STYLES[i % len(STYLES)])
+  # block-processing callables that are not plain functions (no __name__): functools.partial objects and instances
+  for size in (2, 4):
+    for n in (0, 5):
+      for fname in ("identity", "scale"):
+        for style in STYLES:
+          for fk in ("partial", "instance"):
+            yield (size, size // 2, n, fname, False, False, "none", "list", "absent", "absent", style, "func:" + fk)
   # the analysis window handed over as a tuple / Stream / generator object, and a synthesis hop /
   # size that differs from the analysis one (ola_hop, ola_size: the prefixed option wins)
   for size in (2, 3, 4):
@@ -308,6 +315,7 @@ def gen_stft(run):
 
 def run_stft(case):
   synth = len(case) > 11 and case[11] == "ola-hop-size"
+  fkind = case[11][5:] if len(case) > 11 and str(case[11]).startswith("func:") else "def"
   case = case[:11]
   size, hop, n, fname, trans, ba, wk, olak, ola_wnd, ola_norm, style = case
   x = syms("x", n)
@@ -322,6 +330,14 @@ def run_stft(case):
     log.append(("func", [lift(v) for v in blk]))
     return [3 * v for v in blk]
   func = {"identity": f_id, "reverse": f_rev, "scale": f_scale}[fname]
+  if fkind == "partial":
+    import functools
+    func = functools.partial(lambda tag, blk, inner=func: inner(blk), "tag")      # no __name__
+  elif fkind == "instance":
+    class Processor(object):
+      def __init__(self, inner): self.inner = inner
+      def __call__(self, blk): return self.inner(blk)
+    func = Processor(func)
   def before(blk):
     log.append(("before", len(list(blk))))
     return [v + 0 for v in blk]
@@ -578,6 +594,38 @@ def run_types(case):
   return types_agree(case[0], ent[0], ent[1], ent[2], struct_params(ent[1]))
 
 
+# ------------------------------------- the library's own window strategies as callables
+def gen_libwnd(run):
+  from audiolazy import wsymm
+  names = ["hann", "hamming", "bartlett", "triangular", "blackman", "rect"]
+  for dn in ("window", "wsymm"):
+    for name in names:
+      for size, hop in ((4, 2), (5, 3), (8, 2), (6, 6)):
+        for norm in (False, True):
+          yield (dn, name, size, hop, norm)
+
+
+def run_libwnd(case):
+  """wnd=window.X / wnd=wsymm.X (a callable, given as such) is the window that callable returns for the
+  block size: the result equals the one obtained with that list - periodic or symmetric as asked."""
+  from audiolazy import wsymm
+  dn, name, size, hop, norm = case
+  sd = window if dn == "window" else wsymm
+  blks = [[Q(3 * k + i + 1) if (k + i) % 3 else Q(-2) for i in range(size)] for k in range(4)]
+  try:
+    with_callable = list(overlap_add.list([list(b) for b in blks], size=size, hop=hop, wnd=sd[name], normalize=norm))
+    with_list = list(overlap_add.list([list(b) for b in blks], size=size, hop=hop, wnd=list(sd[name](size)), normalize=norm))
+    via_dict = list(overlap_add.list([list(b) for b in blks], hop=hop, wnd=sd[name], normalize=norm))
+  except Exception as exc:
+    return bad("ola:library-window:exception:" + type(exc).__name__, "overlap_add with wnd=%s.%s raised" % (dn, name), None, str(exc)[:200], True)
+  f = lambda vs: [float(Q(v).f) if hasattr(Q(v), "f") else float(v) for v in vs]
+  a, b, c = f(with_callable), f(with_list), f(via_dict)
+  if len(a) != len(b) or any(abs(x - y) > 1e-12 * (1 + abs(y)) for x, y in zip(a, b)) or a != c:
+    return bad("ola:library-window", "wnd=%s.%s must be the window that callable gives for the block size" % (dn, name),
+               b[:6], a[:6], True)
+  return R(None, True, (dn, name))
+
+
 KINDS = OrderedDict([
   ("ola", Kind(gen_ola, run_ola, chunk=300, rule="overlap_add.list configurations; non-trivial: overlap or window")),
   ("reconstruction", Kind(gen_recon, run_recon, chunk=50, rule="blocks -> overlap-add; non-trivial: signal longer than a block")),
@@ -588,4 +636,5 @@ KINDS = OrderedDict([
                        rule="order of choosing overlap_add.default and building / calling the processor x style x (size, hop)")),
   ("param-types", Kind(gen_types, run_types, chunk=1,
                        rule="structural integer parameters given as integral float / Fraction / bool: same result wherever the type is accepted")),
+  ("library-windows", Kind(gen_libwnd, run_libwnd, chunk=8, rule="window / wsymm strategies given as callables vs the lists they return")),
 ])
